@@ -14,6 +14,7 @@
    the 1 s bound). *)
 From V Require Import Model.Base Model.Pdu Gen.PduLayouts Model.ConnLTS Model.ConnRun
   Proofs.ConnBase Proofs.ConnC14 Proofs.ConnC16 Proofs.ConnC05 Proofs.ConnC15.
+From V Require Import Proofs.ConnSched.
 Open Scope N_scope.
 
 (* No timing of the teardown makes Watch panic (send on a closed channel) or
@@ -97,8 +98,23 @@ Example C15_example :
    exists t2 s2, run fixed s1 t2 = Some s2 /\ c_pc (callers s2 1%nat) = PReturned RErr /\ Forall (own_event 1) t2.
 Proof. exact c15_example. Qed.
 
+(* The tie between this model and the implementation.  Every forced schedule the
+   harness runs on the real Conn is evaluated as [sched_admits fixed auto groups
+   snapshots final] (for C05: [sched_env_admits]: additionally within the hypotheses of C05).
+   What a [true] means: SOME trace of [step] from [init] — one resolution of the
+   internal choices no property decides (R1 a select with two ready cases, R2 the
+   order in which waiting senders reach the transport, R3 a hand-over racing
+   Done()) — ends in a state showing exactly what the implementation showed
+   (results of all calls, PDU() deliveries, every transport Write with its octets,
+   Watch / Done() / keep-alive).  The search that finds the trace is not trusted. *)
+Theorem C15_tie_sound : forall v auto groups snaps final,
+  sched_admits v auto groups snaps final = true ->
+  exists tr s, run v init tr = Some s /\ reachable v s /\ beq_obs (observe s) final = true.
+Proof. exact sched_admits_sound. Qed.
+
 Print Assumptions C15_no_panic.
 Print Assumptions C15_watch_exit.
 Print Assumptions C15_every_call_returns.
 Print Assumptions C15_keepalive_after_failure.
 Print Assumptions C15_legacy_refuted_D28.
+Print Assumptions C15_tie_sound.
